@@ -216,7 +216,8 @@ from . import sessionchk  # noqa: E402
 def engine_property(pid, rep, replay=None):
     rep.broken = None
     info = prove(pid, rep)
-    if not build_impl(rep, engine=True):
+    # these checks drive the real binary and the Lean driver only: the in-process harness is not needed
+    if not build_impl(rep, profiles=(), engine=True):
         proof_coverage(rep, info, {})
         return finish(rep, info)
     tier = rep.tier  # a broken tie enlarges only the cheap walk searches (bounded run time)
